@@ -183,6 +183,7 @@ def _run_shard(arg):
     block = _BLOCKS[bi]
     ctx = Ctx(pid, tier, seed, block.name)
     signal.signal(signal.SIGPROF, _on_alarm)
+    timeouts = 0
     try:
         for case in block.cases(shard, nshards):
             ctx.case = case
@@ -205,6 +206,12 @@ def _run_shard(arg):
                 _env().ABORT[0] = False
                 ctx.violation({'clause': 'case did not finish within the per-case backstop', 'block': block.name},
                               f'no result after {block.backstop}s (exponential work or a hang in the code under test)')
+                timeouts += 1
+                if timeouts >= 2:
+                    # the verdict is in; spending the backstop on every further case of this shard would only turn a
+                    # violation into a harness timeout
+                    ctx.count('shard abandoned after 2 case timeouts')
+                    break
             except HarnessError:
                 raise
             except BaseException as e:  # the harness itself must not die on a case
